@@ -284,7 +284,8 @@ class MinMaxAggregator:
         )
 
         body = []
-        var_x = Variable(LOC, "X")
+        # a variable for the smallest/largest domain value that the copied literals do not use
+        var_x = UniqueVariables(Rule(LOC, head, list(lits_with_vars))).make_unique(Variable(LOC, "X"))
 
         body.append(
             Literal(
